@@ -750,6 +750,12 @@ func (server *SugarDB) evictKeysWithExpiredTTL(ctx context.Context) error {
 	if server.isInCluster() && !server.raft.IsRaftLeader() {
 		return nil
 	}
+	// No key expires while the append-only log is replayed (the log itself records when keys were removed).
+	// The removal would also be written to the log, whose store is locked by the replay: the sampler would wait
+	// for it holding the store lock, which the replay needs for its next command.
+	if server.restoreInProgress.Load() {
+		return nil
+	}
 
 	database := ctx.Value("Database").(int)
 
